@@ -2,6 +2,8 @@ import Pep508.Driver.Marker
 import Pep508.Model.MarkerParse
 import Pep508.Model.ReqParse
 import Pep508.Model.Dnf
+import Pep508.Model.Interner
+import Pep508.Model.Kind
 namespace Pep508.Driver
 open Pep508
 
@@ -200,6 +202,53 @@ def runShow (args : List String) : String :=
     match parseTerm t, parseSpell sp with
     | some tr, some spell => if tr == .leaf true then "none" else hexOfBytes' (bytesOfString (showMarker spell tr))
     | _, _ => "bad-op"
+  | _ => "bad-op"
+
+end Pep508.Driver
+
+namespace Pep508.Driver
+open Pep508
+
+/-- `iand <t1> <t2> <warm1> <warm2> …`: the id-level `and` after loading the operands (and,
+    before them, unrelated warm-up diagrams, and their pairwise conjunctions) into one arena;
+    answers the dump of the denotation, whether it equals `Tree.and`, whether running it a
+    second time (cache hit) gives the same id, and whether `b and a` gets the same id -/
+def runIand (args : List String) : String :=
+  match args.mapM parseTerm with
+  | some (a :: b :: warm) =>
+    let s0 : IState VarR VarB Val := IState.empty
+    -- warm-up history
+    let (s1, wids) := warm.foldl (fun (acc : IState VarR VarB Val × List Id) t =>
+      let (s, i) := internTree acc.1 t; (s, acc.2 ++ [i])) (s0, [])
+    let s2 := wids.foldl (fun s i => wids.foldl (fun s j => (andI (s.nodes.length * 4 + 64) s i j).1) s) s1
+    let (s3, ia) := internTree s2 a
+    let (s4, ib) := internTree s3 b
+    let fuel := (a.size + b.size + 1) * 2 + 8
+    let (s5, r) := andI fuel s4 ia ib
+    let (s6, r2) := andI fuel s5 ia ib
+    let (s7, r3) := andI fuel s6 ib ia
+    let d := denote s5 (s5.nodes.length + 1) r
+    let plain := Tree.and a b
+    -- the same operands in a fresh arena, opposite load order
+    let (t1, jb) := internTree s0 b
+    let (t2, ja) := internTree t1 a
+    let (t3, q) := andI fuel t2 ja jb
+    let d' := denote t3 (t3.nodes.length + 1) q
+    let _ := s7
+    s!"{dumpTree d}\teq={if d == plain then 1 else 0}\thit={if r2 == r then 1 else 0}\tcomm={if r3 == r then 1 else 0}\tfresh={if d' == d then 1 else 0}\tinj={if (denote s4 (s4.nodes.length + 1) ia == denote s4 (s4.nodes.length + 1) ib) == (ia == ib) then 1 else 0}"
+  | _ => "bad-op"
+
+end Pep508.Driver
+
+namespace Pep508.Driver
+open Pep508
+
+/-- `cmp <t1> <t2>` ↦ lt | eq | gt (and structural equality) -/
+def runCmp (args : List String) : String :=
+  match args.mapM parseTerm with
+  | some [a, b] =>
+    let o := match Tree.cmp a b with | .lt => "lt" | .eq => "eq" | .gt => "gt"
+    s!"{o} {if a == b then 1 else 0}"
   | _ => "bad-op"
 
 end Pep508.Driver
